@@ -83,6 +83,16 @@ def handleConc (st : ConcState) : List String → Option (ConcState × String)
       match applyAct st .trPublish with
       | some st' => if st'.σ.pub = seq then pure (st', "ok") else pure (st, s!"illegal published-{seq}-model-{st'.σ.pub}")
       | none => pure (st, "illegal transaction-publish-before-install")
+  | ["trdone", seq] => do
+      -- Discard of a transaction that reached sequence number `seq` (after a commit the transaction is already
+      -- gone): its private records are replayed first, so that the discard skips exactly the numbers it used
+      let seq ← seq.toNat?
+      match st.σ.tr with
+      | none => pure (st, "ok")
+      | some t =>
+        let n := seq - (t.base + t.priv.length)
+        let puts := (dummyEntries (t.base + t.priv.length + 1) n).map Action.trPut
+        pure (verdict st (applyActs st (puts ++ [.trDiscard])) "discard-after-install")
   | ["trdone"] =>
       -- Discard of a transaction that was not committed; after a commit the transaction is already gone
       match st.σ.tr with
